@@ -10,6 +10,7 @@ import (
 	"math/rand"
 	"os"
 	"os/exec"
+	"runtime/debug"
 	"sort"
 	"strings"
 	"time"
@@ -112,9 +113,11 @@ type Result struct {
 type Suite struct {
 	Name string
 	Rule string
-	// Exec runs the implementation; it must be deterministic in the ops (apart from what Canon removes)
-	Exec func(ops []string) []string
-	// ToDriver maps the op lines to the lines sent to the model (default: identity)
+	// Exec runs the implementation on the generator's ops and returns the transcript for the model
+	// (dops: the lines sent to the driver, one result line each; for most suites dops = ops).
+	// A result line starting with '~' is a detail-level observation (internal layout), the others
+	// are results the property itself constrains.
+	Exec        func(ops []string) (dops []string, res []string)
 	DriverSuite string
 }
 
@@ -130,13 +133,19 @@ func caseHash(ops []string) string {
 }
 
 // safeExec runs exec and converts a panic into a result line
-func safeExec(exec func([]string) []string, ops []string) (res []string, crashed string) {
+func safeExec(exec func([]string) ([]string, []string), ops []string) (dops, res []string, crashed string) {
 	defer func() {
 		if p := recover(); p != nil {
-			crashed = fmt.Sprintf("%v", p)
+			crashed = fmt.Sprintf("%v\n%s", p, debug.Stack())
 		}
 	}()
-	return exec(ops), ""
+	dops, res = exec(ops)
+	return dops, res, ""
+}
+
+// same wraps an interpreter whose driver ops are the generator ops
+func same(f func([]string) []string) func([]string) ([]string, []string) {
+	return func(ops []string) ([]string, []string) { return ops, f(ops) }
 }
 
 // runCases executes all cases on implementation and model and records the first mismatch of each case (minimised).
@@ -144,15 +153,17 @@ func runCases(s Suite, cases []Case, r *Result) {
 	seen := map[string]bool{}
 	var all []string
 	implRes := make([][]string, len(cases))
+	dopsAll := make([][]string, len(cases))
 	for i, c := range cases {
-		res, crashed := safeExec(s.Exec, c.Ops)
+		dops, res, crashed := safeExec(s.Exec, c.Ops)
 		if crashed != "" {
-			r.Mismatches = append(r.Mismatches, Mismatch{Kind: "crash", Case: i, Impl: crashed, Ops: c.Ops})
-			res = make([]string, len(c.Ops))
+			r.Mismatches = append(r.Mismatches, Mismatch{Kind: "crash", Case: i, Impl: crashed, Ops: shrinkCrash(s, c.Ops)})
+			dops, res = nil, nil
 		}
 		implRes[i] = res
-		all = append(all, c.Ops...)
-		r.Evaluations += len(c.Ops)
+		dopsAll[i] = dops
+		all = append(all, dops...)
+		r.Evaluations += len(dops)
 		h := caseHash(c.Ops)
 		if !seen[h] && len(c.Tags) > 0 {
 			r.DistinctNontrivial++
@@ -170,23 +181,29 @@ func runCases(s Suite, cases []Case, r *Result) {
 	}
 	off := 0
 	for i, c := range cases {
-		for j := range c.Ops {
-			m := out[off+j]
-			if strings.HasPrefix(m, "MODEL-SPEC-MISMATCH") {
-				r.Mismatches = append(r.Mismatches, Mismatch{Kind: "model-vs-spec", Case: i, OpIndex: j, Op: c.Ops[j], Model: m, Ops: c.Ops})
-				break
-			}
-			if implRes[i][j] == "" {
-				continue
-			}
-			if implRes[i][j] != m {
-				mm := Mismatch{Kind: "impl-vs-model", Case: i, OpIndex: j, Op: c.Ops[j], Impl: implRes[i][j], Model: m}
-				mm.Ops = shrink(s, c.Ops[:j+1])
-				r.Mismatches = append(r.Mismatches, mm)
-				break
+		// the first mismatch on a result the property constrains is preferred over an earlier
+		// detail-level (internal layout) mismatch: it is a concrete failing input
+		var first *Mismatch
+		for j := range dopsAll[i] {
+			if mm, bad := compareLine(dopsAll[i][j], implRes[i][j], out[off+j]); bad {
+				mm.Case, mm.OpIndex = i, j
+				if first == nil {
+					m2 := mm
+					first = &m2
+				}
+				if mm.Kind != "impl-vs-model-detail" {
+					m2 := mm
+					first = &m2
+					break
+				}
 			}
 		}
-		off += len(c.Ops)
+		if first != nil {
+			want := first.Kind
+			first.Ops = shrinkWith(c.Ops, func(o []string) bool { return differsKind(s, o, want) })
+			r.Mismatches = append(r.Mismatches, *first)
+		}
+		off += len(dopsAll[i])
 	}
 	if len(r.Samples) < 3 && len(cases) > 0 {
 		c := cases[len(cases)/2]
@@ -198,27 +215,77 @@ func runCases(s Suite, cases []Case, r *Result) {
 	}
 }
 
+func compareLine(op, impl, model string) (Mismatch, bool) {
+	if strings.HasPrefix(model, "MODEL-SPEC-MISMATCH") {
+		return Mismatch{Kind: "model-vs-spec", Op: op, Impl: impl, Model: model}, true
+	}
+	if impl == "" {
+		return Mismatch{}, false
+	}
+	if strings.HasPrefix(impl, "~") {
+		if impl[1:] != model {
+			return Mismatch{Kind: "impl-vs-model-detail", Op: op, Impl: impl[1:], Model: model}, true
+		}
+		return Mismatch{}, false
+	}
+	if impl != model {
+		return Mismatch{Kind: "impl-vs-model", Op: op, Impl: impl, Model: model}, true
+	}
+	return Mismatch{}, false
+}
+
 // differs reports whether implementation and model disagree somewhere on ops
 func differs(s Suite, ops []string) bool {
-	res, crashed := safeExec(s.Exec, ops)
+	dops, res, crashed := safeExec(s.Exec, ops)
 	if crashed != "" {
 		return true
 	}
-	out, err := runDriver(s.DriverSuite, ops)
+	out, err := runDriver(s.DriverSuite, dops)
 	if err != nil {
 		return false
 	}
-	for j := range ops {
-		if res[j] != "" && res[j] != out[j] {
+	for j := range dops {
+		if _, bad := compareLine(dops[j], res[j], out[j]); bad {
 			return true
 		}
 	}
 	return false
 }
 
+// differsKind: some line differs with the given kind (detail-level or property-level)
+func differsKind(s Suite, ops []string, kind string) bool {
+	dops, res, crashed := safeExec(s.Exec, ops)
+	if crashed != "" {
+		return false
+	}
+	out, err := runDriver(s.DriverSuite, dops)
+	if err != nil {
+		return false
+	}
+	for j := range dops {
+		if mm, bad := compareLine(dops[j], res[j], out[j]); bad && mm.Kind == kind {
+			return true
+		}
+	}
+	return false
+}
+
+func crashes(s Suite, ops []string) bool {
+	_, _, crashed := safeExec(s.Exec, ops)
+	return crashed != ""
+}
+
+func shrinkCrash(s Suite, ops []string) []string {
+	return shrinkWith(ops, func(o []string) bool { return crashes(s, o) })
+}
+
 // shrink: delta debugging on the op list (the first op of a case is its header and is kept)
 func shrink(s Suite, ops []string) []string {
-	if len(ops) <= 2 || !differs(s, ops) {
+	return shrinkWith(ops, func(o []string) bool { return differs(s, o) })
+}
+
+func shrinkWith(ops []string, bad func([]string) bool) []string {
+	if len(ops) <= 2 || !bad(ops) {
 		return ops
 	}
 	cur := append([]string(nil), ops...)
@@ -228,7 +295,7 @@ func shrink(s Suite, ops []string) []string {
 		removed := false
 		for start := 1; start+chunk <= len(cur); {
 			cand := append(append([]string(nil), cur[:start]...), cur[start+chunk:]...)
-			if len(cand) >= 2 && differs(s, cand) {
+			if len(cand) >= 2 && bad(cand) {
 				cur = cand
 				removed = true
 			} else {
@@ -309,3 +376,5 @@ func pickValue(r *rand.Rand, tag int) []byte {
 		return []byte(fmt.Sprintf("v%d", tag))
 	}
 }
+
+func itoa(n int) string { return fmt.Sprintf("%d", n) }
